@@ -2,6 +2,8 @@ package checks
 
 import (
 	"fmt"
+	"go/token"
+	"go/types"
 	"os"
 	"regexp"
 	"sort"
@@ -27,28 +29,41 @@ import (
 var raceBlockRe = regexp.MustCompile(`(?m)^(Previous )?([Ww]rite|[Rr]ead) at 0x[0-9a-f]+ by [^\n]*:\n((?:  [^\n]*\n      [^\n]*\n)+)`)
 var frameLineRe = regexp.MustCompile(`_?main\.go:(\d+)`)
 
-// raceWriteLines extracts, from race-detector output, the lines of main.go at which a racing WRITE happened.
-func raceWriteLines(stderr string) (writes map[int]bool, reports int) {
-	writes = map[int]bool{}
+// raceLines extracts, from race-detector output, the lines of main.go at which the LATER access of a report happened,
+// separately for writes and reads.
+func raceLines(stderr string) (writes, reads map[int]bool, reports int) {
+	writes, reads = map[int]bool{}, map[int]bool{}
 	reports = strings.Count(stderr, "WARNING: DATA RACE")
 	for _, m := range raceBlockRe.FindAllStringSubmatch(stderr, -1) {
 		// Only the LATER access of a report is judged: when it happened, another goroutine had already accessed the same
-		// memory, so the memory was reachable from that goroutine before the write. The earlier access ("Previous write")
+		// memory, so the memory was reachable from that goroutine before the access. The earlier access ("Previous write")
 		// may have happened while the object was still unpublished (initialisation followed by an unsynchronised
-		// publication): the detector reports it, but the write was local when it happened.
-		if m[1] != "" || !strings.EqualFold(m[2], "write") {
+		// publication): the detector reports it, but the access was local when it happened.
+		if m[1] != "" {
 			continue
 		}
-		// first frame located in the program's main.go
-		for _, fl := range strings.Split(m[3], "\n") {
-			if !strings.Contains(fl, "main.go:") || strings.Contains(fl, "/cmd/") {
+		isWrite := strings.EqualFold(m[2], "write")
+		fl := strings.Split(m[3], "\n")
+		// frames come in pairs: function, then file:line
+		for k := 0; k+1 < len(fl); k += 2 {
+			fn, loc := strings.TrimSpace(fl[k]), fl[k+1]
+			if !strings.Contains(loc, "main.go:") || strings.Contains(loc, "/cmd/") {
+				// a frame of the runtime above the program's frame: the access is made by the runtime on behalf of an
+				// operation of that line. Accepted for writes (map assignment, struct copies); for reads only map access.
+				if !isWrite && !strings.HasPrefix(fn, "runtime.mapaccess") {
+					break
+				}
 				continue
 			}
-			if mm := frameLineRe.FindStringSubmatch(fl); mm != nil {
+			if mm := frameLineRe.FindStringSubmatch(loc); mm != nil {
 				n, _ := strconv.Atoi(mm[1])
-				writes[n] = true
-				break
+				if isWrite {
+					writes[n] = true
+				} else {
+					reads[n] = true
+				}
 			}
+			break
 		}
 	}
 	return
@@ -57,6 +72,41 @@ func raceWriteLines(stderr string) (writes map[int]bool, reports int) {
 func isWriteInstr(i ssa.Instruction) bool {
 	switch i.(type) {
 	case *ssa.Store, *ssa.MapUpdate, *ssa.Send:
+		return true
+	}
+	return false
+}
+
+// isReadInstr: memory loads and map lookups (the instructions that read shared memory and carry a source position).
+func isReadInstr(i ssa.Instruction) bool {
+	switch x := i.(type) {
+	case *ssa.UnOp:
+		return x.Op == token.MUL
+	case *ssa.Lookup:
+		_, isMap := x.X.Type().Underlying().(*types.Map)
+		return isMap
+	}
+	return false
+}
+
+// opaqueOnLine: instructions that access memory without being classified individually (builtins such as append, copy,
+// delete; conversions between strings and slices): a line that carries one is not judged.
+func opaqueInstr(i ssa.Instruction) bool {
+	switch x := i.(type) {
+	case *ssa.Call:
+		_, isBuiltin := x.Call.Value.(*ssa.Builtin)
+		return isBuiltin
+	case *ssa.Defer:
+		_, isBuiltin := x.Call.Value.(*ssa.Builtin)
+		return isBuiltin
+	case *ssa.Go:
+		_, isBuiltin := x.Call.Value.(*ssa.Builtin)
+		return isBuiltin
+	case *ssa.Convert:
+		_, fromSlice := x.X.Type().Underlying().(*types.Slice)
+		_, toSlice := x.Type().Underlying().(*types.Slice)
+		return fromSlice || toSlice
+	case *ssa.Range, *ssa.Next, *ssa.Select:
 		return true
 	}
 	return false
@@ -183,7 +233,7 @@ func c14Claims(l *core.Loaded) (claimed map[ssa.Instruction]bool, judged map[ssa
 	claimed, judged = map[ssa.Instruction]bool{}, map[ssa.Instruction]bool{}
 	for _, loc := range locality {
 		for ins, rat := range loc {
-			if !isWriteInstr(ins) {
+			if !isWriteInstr(ins) && !isReadInstr(ins) {
 				continue
 			}
 			judged[ins] = true
@@ -195,19 +245,25 @@ func c14Claims(l *core.Loaded) (claimed map[ssa.Instruction]bool, judged map[ssa
 	return claimed, judged, ""
 }
 
-type c14Stats struct{ races, racyWriteLines, judgedLines, claimedLocalWrites, sharedWrites int }
+type c14Stats struct {
+	races, racyWriteLines, racyReadLines, judgedLines, claimedLocalWrites, claimedLocalReads, sharedWrites int
+}
 
 func c14Judge(files map[string]string, res *native.Result) (string, c14Stats, error) {
 	var st c14Stats
-	writes := map[int]bool{}
+	writes, reads := map[int]bool{}, map[int]bool{}
 	for _, r := range res.Runs {
-		w, n := raceWriteLines(r.Stderr)
+		w, rd, n := raceLines(r.Stderr)
 		st.races += n
 		for l := range w {
 			writes[l] = true
 		}
+		for l := range rd {
+			reads[l] = true
+		}
 	}
 	st.racyWriteLines = len(writes)
+	st.racyReadLines = len(reads)
 	l, err := core.LoadSource(files)
 	if err != nil {
 		return "", st, err
@@ -225,47 +281,101 @@ func c14Judge(files map[string]string, res *native.Result) (string, c14Stats, er
 	if pan != "" || judged == nil {
 		return "", st, nil // crashes / loud failures are not this property's subject
 	}
-	st.claimedLocalWrites = len(claimed)
-	st.sharedWrites = len(judged) - len(claimed)
-	byLine := map[int][]ssa.Instruction{}
 	for ins := range judged {
-		if ln := lineOf(l.Prog, ins); ln > 0 {
-			byLine[ln] = append(byLine[ln], ins)
+		if isWriteInstr(ins) {
+			if claimed[ins] {
+				st.claimedLocalWrites++
+			} else {
+				st.sharedWrites++
+			}
+		} else if claimed[ins] {
+			st.claimedLocalReads++
 		}
 	}
-	// a race report names a line, not an instruction: a line is judged only if every write instruction on it (in any
-	// function, e.g. a closure literal on the same line) was classified in some context
-	allWrites := map[int]int{}
+	// A race report names a line, not an instruction. A line is judged for one kind of access (write / read) only if
+	//  - every instruction of that kind on it, in any function (e.g. a closure literal on the same line), was
+	//    classified in some context;
+	//  - it carries no instruction that accesses memory without being classified individually (builtins, conversions
+	//    between strings and slices, range/next/select);
+	//  - for reads: no function with code on that line contains a load without source position (such a load could be
+	//    the racing one: range loops over slices, named results).
+	type lineInfo struct {
+		all    map[bool][]ssa.Instruction // isWrite -> instructions of that kind
+		opaque bool
+		funcs  map[*ssa.Function]bool
+	}
+	info := map[int]*lineInfo{}
+	noPosLoad := map[*ssa.Function]bool{}
 	for f := range ssautil.AllFunctions(l.Prog) {
 		for _, b := range f.Blocks {
 			for _, ins := range b.Instrs {
-				if isWriteInstr(ins) {
-					if ln := lineOf(l.Prog, ins); ln > 0 {
-						allWrites[ln]++
+				ln := lineOf(l.Prog, ins)
+				if ln <= 0 {
+					if isReadInstr(ins) && ins.Pos() == token.NoPos {
+						noPosLoad[f] = true
 					}
+					continue
+				}
+				li := info[ln]
+				if li == nil {
+					li = &lineInfo{all: map[bool][]ssa.Instruction{}, funcs: map[*ssa.Function]bool{}}
+					info[ln] = li
+				}
+				li.funcs[f] = true
+				if opaqueInstr(ins) {
+					li.opaque = true
+				}
+				if isWriteInstr(ins) {
+					li.all[true] = append(li.all[true], ins)
+				} else if isReadInstr(ins) {
+					li.all[false] = append(li.all[false], ins)
 				}
 			}
 		}
 	}
-	var lines []int
-	for ln := range writes {
-		lines = append(lines, ln)
-	}
-	sort.Ints(lines)
-	for _, ln := range lines {
-		ws := byLine[ln]
-		if len(ws) == 0 || len(ws) != allWrites[ln] {
-			continue // the racing write is not an instruction the analysis classified (append, copy, delete, runtime, function without context)
+	judgeLine := func(ln int, isWrite bool) string {
+		li := info[ln]
+		if li == nil || li.opaque || len(li.all[isWrite]) == 0 {
+			return ""
 		}
-		st.judgedLines++
-		allLocal := true
-		for _, w := range ws {
-			if !claimed[w] {
-				allLocal = false
+		if !isWrite {
+			for f := range li.funcs {
+				if noPosLoad[f] {
+					return ""
+				}
 			}
 		}
-		if allLocal {
-			return fmt.Sprintf("the race detector reported a data race with a write on line %d, but every write instruction on that line (%s) is classified thread-local in the contexts derived for its function", ln, ws[0]), st, nil
+		for _, ins := range li.all[isWrite] {
+			if !judged[ins] {
+				return "" // a function without derived context
+			}
+		}
+		st.judgedLines++
+		for _, ins := range li.all[isWrite] {
+			if !claimed[ins] {
+				return ""
+			}
+		}
+		kind := "read"
+		if isWrite {
+			kind = "write"
+		}
+		return fmt.Sprintf("the race detector reported a data race whose later access is a %s on line %d (another goroutine had accessed that memory before), but every %s instruction on that line (%s) is classified thread-local in the contexts derived for its function", kind, ln, kind, li.all[isWrite][0])
+	}
+	for _, isWrite := range []bool{true, false} {
+		set := reads
+		if isWrite {
+			set = writes
+		}
+		var lines []int
+		for ln := range set {
+			lines = append(lines, ln)
+		}
+		sort.Ints(lines)
+		for _, ln := range lines {
+			if msg := judgeLine(ln, isWrite); msg != "" {
+				return msg, st, nil
+			}
 		}
 	}
 	return "", st, nil
@@ -273,23 +383,25 @@ func c14Judge(files map[string]string, res *native.Result) (string, c14Stats, er
 
 func TestC14(t *testing.T) {
 	rec := core.NewRecorder("C14", env, "cases = concurrent programs (goroutines sharing captured variables, arguments, globals, maps, slices, "+
-		"struct fields, channels; no synchronisation of individual accesses) built natively with -race and run under GOMAXPROCS {2,8}; static "+
-		"side through the public EscapeAnalysisState interface: arbitrary contexts for main, init, go-callees and deferred callees, call-site "+
-		"contexts propagated and merged per function to a fixpoint; oracle: a line on which the race detector reports a WRITE as the later "+
-		"access of a race (another goroutine had accessed that memory before) must not consist only of write instructions (Store, MapUpdate, "+
-		"Send) claimed local; non-trivial = >= 1 race report on a judged line and "+
-		">= 1 write instruction claimed local in the same program; distinct = hash(program, valuations)")
+		"struct fields, channels; loops whose header reads memory that the body shares; no synchronisation of individual accesses) built "+
+		"natively with -race and run under GOMAXPROCS {2,8}; static side through the public EscapeAnalysisState interface: arbitrary contexts "+
+		"for main, init, go-callees, deferred callees and callees of unsummarised functions, call-site contexts propagated and merged per "+
+		"function to a fixpoint; oracle: a line on which the race detector reports a WRITE (or READ) as the LATER access of a race (another "+
+		"goroutine had accessed that memory before) must not consist only of write (read) instructions claimed local; lines with builtins, "+
+		"string/slice conversions, range/select or, for reads, functions with position-less loads are not judged; non-trivial = >= 1 race "+
+		"report on a judged line and >= 1 write instruction claimed local in the same program; distinct = hash(program, valuations)")
 	rec.Assumptions = []string{"Go's race detector has no false positives; it only sees races of interleavings that occur",
-		"racing reads are not judged (implicit loads have no source position); the earlier access of a report is not judged (it may precede an unsynchronised publication); writes through builtins (append, copy, delete) are not instructions the analysis classifies",
+		"the earlier access of a report is not judged (it may precede an unsynchronised publication)",
+		"a report names a line: the line is judged only if every instruction of the reported kind on it was classified and all are claimed local",
 		"contexts are merged per function: an instruction local under the merged context is local under each contributing context (monotonicity)"}
 	defer rec.Flush()
 	replayKnown(t, "C14")
 	off := excluded()
 	nv := 2
 	if env.Thorough() {
-		nv = 6
+		nv = 4
 	}
-	tp := &twoPass{id: "C14", salt: 14, checks: env.Pick(200, 8000), rec: rec,
+	tp := &twoPass{id: "C14", salt: 14, checks: env.Pick(200, 2000), rec: rec,
 		gen: func(t *rapid.T) *flowCase { return genFlowCase(t, gogen.ConcurrentProfile(off), nv) },
 		unit: func(c *flowCase) native.Unit {
 			u := c.unit()
@@ -303,7 +415,7 @@ func TestC14(t *testing.T) {
 			}
 			rec.Case(c.Key, st.judgedLines >= 1 && st.claimedLocalWrites >= 1, c.Prog.FeatList(), func() any {
 				return map[string]any{"program_from_first_function": core.Truncate(afterDecls(c.Prog.Main), 50), "race_reports": st.races,
-					"racy_write_lines": st.racyWriteLines, "judged_lines": st.judgedLines, "writes_claimed_local": st.claimedLocalWrites, "writes_classified_shared": st.sharedWrites}
+					"racy_write_lines": st.racyWriteLines, "racy_read_lines": st.racyReadLines, "reads_claimed_local": st.claimedLocalReads, "judged_lines": st.judgedLines, "writes_claimed_local": st.claimedLocalWrites, "writes_classified_shared": st.sharedWrites}
 			})
 			rec.Count("race_reports", st.races)
 			rec.Count("racy_write_lines_judged", st.judgedLines)
